@@ -34,8 +34,10 @@ pub open spec fn is_mod(k: KeyCode) -> bool {
 //@ C07 C14 | default: fn is_action_key
 fn is_action_key(k: &KeyCode) -> (r: bool)
   ensures
-    //@ C07 | after a no-repeat mapping fires only modifiers are held
-    r == !is_mod(*k),
+    //@ C07 | every key that is not one of the eight modifiers counts as repeatable (it is lifted when a no-repeat mapping fires)
+    !is_mod(*k) ==> r,
+    //@ C04 C05 | ... and the eight modifiers do not (they are never lifted or re-pressed like a repeatable key)
+    is_mod(*k) ==> !r,
   { //@ | body
   use KeyCode::{LEFTSHIFT, RIGHTSHIFT, LEFTMETA, RIGHTMETA, LEFTCTRL, RIGHTCTRL, LEFTALT, RIGHTALT};
   
